@@ -81,6 +81,11 @@ def _draw(name, pc, tc, n, aux):
         else:
             getattr(circ, direction)(s)
         return ("state", _np(s.gs), _np(s.ps), s.r)
+    if name == "mcirc":
+        circ, start = aux
+        s = pc.zero_state(n) if start == "zero" else pc.one_state(n)
+        circ.forward(s)
+        return ("state", _np(s.gs), _np(s.ps), s.r)
     if name == "gate":
         gate, direction = aux
         lst = sut.mk_list(rm.identity_images(n))
@@ -130,7 +135,7 @@ TABLE = [
     ("rcs", 2, 5), ("rcs", 3, 1), ("rcs", 4, 1), ("rps", 3, 1), ("rbs", 3, 2), ("rbs", 6, 1),
     ("onsite", 2, 2), ("onsite", 4, 1), ("global", 2, 3), ("global", 3, 1), ("brickwall", 2, 2), ("brickwall", 4, 1),
     ("gate", 2, 3), ("gate", 1, 1), ("coin", 4, 2), ("coinfix", 2, 1), ("coinfix", 3, 2), ("coinfix", 4, 2),
-    ("coinfix", 1, 1),
+    ("coinfix", 1, 1), ("mcirc", 2, 2), ("mcirc", 3, 1), ("mcirc", 4, 1),
     ("t:rcm", 1, 2), ("t:rcm", 2, 12), ("t:rcm", 3, 8), ("t:rpm", 2, 3), ("t:rpair", 2, 2), ("t:rcliff", 3, 2),
     ("t:rcs", 2, 2), ("t:rpauli", 2, 1), ("t:rps", 2, 1), ("t:rpm", 3, 1), ("t:rcs", 3, 1), ("t:rpair", 3, 1),
     ("t:rcm", 4, 2), ("rps", 2, 3), ("rps", 1, 1), ("t:rps", 2, 1), ("rpm", 6, 1), ("rpauli", 6, 1), ("rcs", 5, 1),
@@ -153,6 +158,11 @@ def gen_config(rng, tier):
         cfg["steps"] = 200
     if sampler == "gate":
         cfg["dir"] = rng.choice(["forward", "backward", "alternate"])
+        cfg["steps"] = 200
+    if sampler == "mcirc":
+        # random gates added with Circuit.gate(...) to the Circuit class (the one with measurement
+        # support); for N >= 3 a measurement layer sits between two random gates
+        cfg["start"] = rng.choice(["zero", "zero", "one"])
         cfg["steps"] = 200
     if sampler == "coinfix":
         # one fixed (mixed or pure) state per block, measured again and again on fresh copies:
@@ -204,6 +214,16 @@ class RunClass(Run):
             self.aux = (pc.brickwall_rcc(n, cfg["depth"]), cfg["dir"], cfg["start"])
         elif s == "gate":
             self.aux = (pc.CliffordGate(*range(n)), cfg["dir"])
+        elif s == "mcirc":
+            c = pc.Circuit(n)
+            if n == 2:
+                c.gate(0, 1)
+            else:
+                c.gate(0, 1)
+                c.measure(0)
+                c.gate(*range(1, n))
+                c.gate(0)
+            self.aux = (c, cfg["start"])
         elif s == "coin":
             self.aux = sut.mk_list([(tuple(3 if i == q else 0 for i in range(n)), 0) for q in range(n)])
         elif s == "coinfix":
@@ -411,7 +431,7 @@ class RunClass(Run):
                     self.bad("bit_state_not_computational")
                 if n == 3:
                     self.bin("bits", tuple(rows[i][1] for i in range(n)))
-            if s in ("global", "brickwall") and n == 2:
+            if s in ("global", "brickwall", "mcirc") and n == 2:
                 self.bin("state", a.key())
             if s == "onsite" and n == 2:
                 self.bin("state", a.key())
@@ -435,8 +455,10 @@ class RunClass(Run):
                                                             "basis": self.cfg["basis"]})
         if s == "gate" and k >= 150:
             need = {1: 12, 2: int(0.7 * k)}.get(n)
-        elif s in ("global", "brickwall") and n == 2 and k >= 150:
+        elif s in ("global", "brickwall", "mcirc") and n == 2 and k >= 150:
             need = 30
+        elif s == "mcirc" and n >= 3 and k >= 150:
+            need = 50
         elif s == "onsite" and n == 2 and k >= 150:
             need = 18
         elif s in ("global", "brickwall", "onsite") and n >= 3 and k >= 150:
@@ -468,7 +490,7 @@ def _family(sampler):
         return "cliff"
     if b in ("rpm", "rpauli"):
         return "pauli"
-    if b in ("rcs", "global", "brickwall"):
+    if b in ("rcs", "global", "brickwall", "mcirc"):
         return "cliffstate"
     if b == "onsite":
         return "productstate"
